@@ -346,5 +346,5 @@ func TestC09(t *testing.T) {
 	s := newSuite(t, "C09",
 		"2..7 requests on one connection (MaxConcurrentStreams 2..4, MaxRequestBodySize 2000), each either well-formed (some with gated handlers) or one of the stream-scoped offences {malformed field at a generated position, content-length smaller/larger than the body, body over the limit, declared length over the limit, stream over the concurrency limit (refused), peer RST_STREAM after the headers / mid-body / while the handler runs / while the response is window-blocked, handler panic, stream WINDOW_UPDATE overflow / zero}, optionally followed by frames written before the peer could have read the server's reaction (DATA, DATA+END_STREAM, WINDOW_UPDATE, trailers); all blocks draw their fields from a shared vocabulary so later blocks index entries inserted by earlier, possibly offending, blocks; blocks optionally split. Oracle: no GOAWAY/EOF; every well-formed request, before or after, gets the exchange oracle of C01; a final probe request indexing the whole vocabulary is served. Non-trivial = at least one offence whose block carries vocabulary fields; distinct by case hash.")
 	defer s.finish()
-	runLane(s, Lane[c09Case]{Name: "offences", Journal: true, Quick: 4000, Thor: 500000, Gen: c09Gen, Run: c09Run})
+	runLane(s, Lane[c09Case]{Name: "offences", Journal: true, Quick: 4000, Thor: 2000000, Gen: c09Gen, Run: c09Run})
 }
